@@ -30,9 +30,11 @@ type c15file struct {
 }
 type c15io struct{}
 
-func (c15io) Path(f c15file) string                 { return f.path }
-func (c15io) Lstat(f c15file) (os.FileInfo, error)  { return c15fi{f}, nil }
-func (c15io) Open(f c15file) (io.ReadCloser, error) { return io.NopCloser(bytes.NewReader(f.data)), nil }
+func (c15io) Path(f c15file) string                { return f.path }
+func (c15io) Lstat(f c15file) (os.FileInfo, error) { return c15fi{f}, nil }
+func (c15io) Open(f c15file) (io.ReadCloser, error) {
+	return io.NopCloser(bytes.NewReader(f.data)), nil
+}
 
 type c15fi struct{ f c15file }
 
